@@ -957,3 +957,27 @@ def option_map_or(ctx):
         return ex.ite(d == BV(1, 64), mapped, default)
     except Unsupported:
         return NotImplemented
+
+
+@contract(r'^<Vec<.*> as IntoIterator>::into_iter$')
+def vec_into_iter(ctx):
+    v = ctx.args[0]
+    if isinstance(v, SeqV) and v.items is not None:
+        return Agg('vec::IntoIter', {0: v, 1: Int(BV(0, 64), 64, False)})
+    return NotImplemented
+
+
+@contract(r'^<std::vec::IntoIter<.*> as Iterator>::next$')
+def vec_into_iter_next(ctx):
+    ex, st = ctx.ex, ctx.st
+    r = ctx.args[0]
+    it = ex.load(st, r.cell, r.path)
+    if not (isinstance(it, Agg) and it.name == 'vec::IntoIter'):
+        return NotImplemented
+    seq, pos = it.fields[0], concrete(it.fields[1].t)
+    if pos is None:
+        return NotImplemented
+    if pos >= len(seq.items):
+        return mk_option(ex, None)
+    ex.store(st, r.cell, r.path, it.with_field(1, Int(BV(pos + 1, 64), 64, False)))
+    return mk_option(ex, seq.items[pos])
